@@ -1,9 +1,12 @@
 #!/bin/sh
-# Builds the Lean library (models, theorems) and every line-protocol driver, offline.
+# Builds the Lean library (models, lemma files, property theorems) and every line-protocol driver, offline.
+# Every check rebuilds what it needs itself (after re-running its translators against /repo); this only warms the build.
 cd "$(dirname "$0")/lean" || exit 2
-if [ -f ../harness/translate_all.py ]; then /venv/bin/python ../harness/translate_all.py || echo "setup: translate_all failed (checks re-translate themselves)"; fi
-lake build OdfModel || exit 1
-for exe in $(sed -n 's/^name = "\(drv_[a-z0-9_]*\)"/\1/p' lakefile.toml); do
-  lake build "$exe" || echo "setup: driver $exe did not build (its check will report it)"
+MODS=$(ls OdfModel/Props/*.lean 2>/dev/null | sed 's#/#.#g; s#\.lean$##')
+EXES=$(sed -n 's/^name = "\(drv_[a-z0-9_]*\)"/\1/p' lakefile.toml)
+lake build OdfModel $MODS $EXES && exit 0
+echo "setup: combined build failed, building targets one by one"
+for t in OdfModel $MODS $EXES; do
+  lake build "$t" >/dev/null 2>&1 || echo "setup: target $t did not build (its check will report it)"
 done
 exit 0
